@@ -602,3 +602,35 @@ T('g5_t_mode_keyword_arguments', ['C05'],
   (R, _BR_COMPILE, "        self.regex, self.converters = _compile_path_pattern(pattern=self.pattern, mode=self.slash_mode)\n"))
 T('g5_t_mode_default_then_override', ['C05'],
   (R, _BR_MODE, "        self.slash_mode = route.slash_mode\n        if inherit_slashes:\n            self.slash_mode = app.slash_mode\n"))
+
+# ---- seventh pass (round x): per-table membership disjunctions; the binding parser in a new private module ---------------------------------
+_X5_TYPEGUARD = ("        if type_name not in TYPE_CONV_MAP or type_name not in TYPE_PATT_MAP:\n"
+                 "            raise InvalidPattern('unknown type specifier %s'\n                                 % type_name)\n"
+                 "        cur_conv = TYPE_CONV_MAP[type_name]\n        cur_patt = TYPE_PATT_MAP[type_name]\n")
+_X5_OPGUARD = ("        if op not in _OP_ARITY_MAP or op not in _OP_OPTIONALITY_MAP:\n            _tmpl = 'unknown arity operator %r, expected one of %r'\n"
+               "            raise InvalidPattern(_tmpl % (op, _OP_ARITY_MAP.keys()))\n"
+               "        multi = _OP_ARITY_MAP[op]\n        optional = _OP_OPTIONALITY_MAP[op]\n")
+T('x5_t_membership_per_table_disjunction', ['C05'], (R, _TYPETRY, _X5_TYPEGUARD), (R, _OPTRY, _X5_OPGUARD))
+T('x5_t_membership_negated_conjunction', ['C05'],
+  (R, _TYPETRY, _X5_TYPEGUARD.replace("type_name not in TYPE_CONV_MAP or type_name not in TYPE_PATT_MAP", "not (type_name in TYPE_CONV_MAP and type_name in TYPE_PATT_MAP)")))
+B('x5_b_membership_disjunction_other_key', ['C05'], 'R05.c',
+  (R, _TYPETRY, _X5_TYPEGUARD.replace("if type_name not in TYPE_CONV_MAP or", "if name not in TYPE_CONV_MAP or")))
+B('x5_b_membership_disjunction_rejects_known_ops', ['C05'], 'R05.c',
+  (R, _OPTRY, _X5_OPGUARD.replace("or op not in _OP_OPTIONALITY_MAP", "or op in _OP_OPTIONALITY_MAP")))
+
+_X5_BINDING = ("BINDING = re.compile(r'<'\n                     r'(?P<name>[A-Za-z_]\\w*)'\n                     r'(?P<op>\\W*)'\n"
+               "                     r'(?P<type>\\w+)*'\n                     r'>')\n")
+_X5_LOOPHEAD = "        match = BINDING.match(part)\n        if not match:\n            processed.append(part)\n            continue\n" + _PARSE
+_X5_LOOPHEAD_NEW = ("        binding = parse_part(part)\n        if binding is None:\n            processed.append(part)\n            continue\n"
+                    "        name, op, type_name = binding\n")
+_X5_PATHOPS = ("import re\n\n\n" + _X5_BINDING + "\n\ndef parse_part(part):\n    match = BINDING.match(part)\n    if match is None:\n        return None\n"
+               "    return match.group('name', 'op', 'type')\n")
+_X5_MOVE = [('clastic/_bindparse.py', '__NEW__', _X5_PATHOPS), (R, _X5_BINDING, "from ._bindparse import BINDING, parse_part\n"),
+            (R, _X5_LOOPHEAD, _X5_LOOPHEAD_NEW)]
+T('x5_t_binding_parser_in_private_module', ['C05'], *_X5_MOVE)
+B('x5_b_binding_parser_groups_swapped', ['C05'], 'R05.e',
+  ('clastic/_bindparse.py', '__NEW__', _X5_PATHOPS.replace("match.group('name', 'op', 'type')", "match.group('name', 'type', 'op')")), *_X5_MOVE[1:])
+B('x5_b_binding_parser_some_bindings_literal', ['C05'], 'R05.g',
+  ('clastic/_bindparse.py', '__NEW__', _X5_PATHOPS.replace("if match is None:", "if match is None or match.group('op') == '!':")), *_X5_MOVE[1:])
+B('x5_b_binding_parser_result_test_inverted', ['C05'], 'R05.g',
+  _X5_MOVE[0], _X5_MOVE[1], (R, _X5_LOOPHEAD, _X5_LOOPHEAD_NEW.replace("if binding is None:", "if binding is not None:")))
